@@ -45,7 +45,7 @@ def tally(ctx, jobs):
 
 def validate(ctx, jobs, cfg="BoolTrace.cfg", module="BoolTrace"):
     files = [j["out"] for j in jobs]
-    res = core.validate_traces(module, cfg, files)
+    res = core.validate_traces(module, cfg, files, timeout=1500 if ctx.quick else 4000)
     byfile = {j["out"]: j for j in jobs}
     for f, r in res:
         ctx.add_tlc(r)
